@@ -154,9 +154,9 @@ fn print_styled(mods: &[ModuleS], style: NumStyle) -> pipe::Input {
 
 pub fn run(tier: &str, only: Option<&Value>) -> i32 {
     let mut rep = Report::new("C20", tier);
-    rep.rule = "E1: every accepted case of the layout space (and of small vftable / enum / multi-type spaces) x every applicable rewrite site — R1 explicit address equal to the current offset, R2 unnamed gap <-> address on the following field / #[size], R3 #[size] equal to the natural size, R4 #[index] equal to the current slot (also on functions that carry a doc line and a convention, written before and after those), R5 enum value equal to the implicit one — in every compatible combination of up to 8 sites, plus R6 decimal/hex/underscore spelling of every number and R7 every permutation of a module's definitions; oracle: the rewritten description is accepted and its output is byte-identical. distinct = distinct original descriptions with at least one site".into();
+    rep.rule = "E1: every accepted case of the layout space (and of small vftable / enum / multi-type spaces) x every applicable rewrite site — R1 explicit address equal to the current offset, R2 unnamed gap <-> address on the following field / #[size], R3 #[size] equal to the natural size, R4 #[index] equal to the current slot (also on functions that carry a doc line and a convention, written before and after those), R5 enum value equal to the implicit one — in every compatible combination of up to 8 sites, plus R6 decimal/hex/underscore spelling of every number and R7 every permutation of a module's definitions (four interdependent ones with impl / extern items, and six — seven thorough — with similar names); oracle: the rewritten description is accepted and its output is byte-identical. distinct = distinct original descriptions with at least one site".into();
     rep.assumptions = vec!["rewrite sites are computed from the description by the reference layout model".into()];
-    let space = LayoutSpace::new_reduced(tier, false);
+    let space = LayoutSpace::new_reduced(tier, false).without_long();
     let only_i = only.map(|l| (l["space"].as_str().unwrap_or("").to_string(), l["index"].as_u64().unwrap_or(0) as usize, l["ps"].as_u64().unwrap_or(8) as usize));
     for ps in [4usize, 8] {
         if matches!(&only_i, Some((_, _, p)) if *p != ps) {
@@ -480,5 +480,34 @@ fn other_cases(tier: &str) -> Vec<(&'static str, Vec<ModuleS>, Vec<Vec<ModuleS>>
         }
         out.push(("definition_order", mk(&ident, false), variants));
     }
+    // R7 with six (seven thorough) definitions whose names are prefixes of each other or differ in
+    // case, a digit or an underscore, one of them with a vftable and one an enum
+    let names: &[&str] = if tier == "thorough" { &["Item", "Item2", "Item10", "item", "Item_", "ITEM", "It"] } else { &["Item", "Item2", "Item10", "item", "Item_", "It"] };
+    let defs: Vec<Item> = names
+        .iter()
+        .enumerate()
+        .map(|(i, n)| {
+            if i == 3 {
+                let mut e = EnumS::new(n, "u16");
+                e.variants = vec![VariantS { name: "P".into(), value: None, default: false, doc: vec![] }];
+                Item::Enum(e)
+            } else {
+                let mut t = TypeS::new(n);
+                t.fields = vec![FieldS::new("x", MTy::b("u32")), FieldS::new("y", MTy::b("u32"))];
+                if i == 1 {
+                    t.vft = Some(VftS { size: None, funcs: vec![FuncS::new("v")] });
+                }
+                if i == 2 {
+                    t.fields.push(FieldS::new("p", MTy::user(names[0]).cptr()));
+                    t.fields.push(FieldS::new("q", MTy::user(names[1]).cptr()));
+                }
+                Item::Type(t)
+            }
+        })
+        .collect();
+    let mk = |order: &[usize]| vec![ModuleS::new("m").with(order.iter().map(|&i| defs[i].clone()).collect())];
+    let ident: Vec<usize> = (0..defs.len()).collect();
+    let variants = util::permutations(defs.len()).iter().map(|p| mk(p)).collect();
+    out.push(("definition_order", mk(&ident), variants));
     out
 }
